@@ -52,7 +52,11 @@ def is_cont(chars, c):
 
 def pick_dis(r, chars, di_all, n_extra):
     named = [c for c in STARTERS + CONTINUATIONS if c in di_all]
-    return named + r.sample([c for c in di_all if c not in named], n_extra)
+    cand = named + r.sample([c for c in di_all if c not in named], n_extra)
+    chars.load(cand)
+    # a code point of the Unicode list that the crate does not treat as default ignorable is the `di-set` finding (reported
+    # there, and seen end to end by `di-invisible`): not a default ignorable for this stream
+    return [c for c in cand if chars.p.get(c) and chars.p[c]["di"]]
 
 
 # ------------------------------------------------------------------------------------------------------------------
@@ -342,7 +346,7 @@ def search(ctx, shim, chars, di_all, r):
         if shown >= 3:
             break
         shown += 1
-        d = next(c for c in text if c in chars.p and chars.p[c] and chars.p[c]["di"])
+        d = next((c for c in text if chars.p.get(c) and chars.p[c]["di"]), text[0])
         rp = {"stage": "search", "stream": "di-invisible-env", "environment": name, "kind": kind, "codepoint": d,
               "text": [f"{c:04X}" for c in text], "direction": dr, "flags": fl, "level": lv, "ptem": pt,
               "request": req, "reply": reply}
@@ -356,7 +360,7 @@ def search(ctx, shim, chars, di_all, r):
         # recorded upstream behaviour (class cross-stream-chain): reported through the known-findings channel when a signature is
         # registered for it, otherwise listed in the evidence as a finding that awaits registration
         err, req, text, dr, fl, lv, pt, hx, reply, name, kind = min(cross, key=lambda x: (len(x[2]), x[1]))
-        d = next(c for c in text if chars.p.get(c) and chars.p[c]["di"])
+        d = next((c for c in text if chars.p.get(c) and chars.p[c]["di"]), text[0])
         rp = {"stage": "search", "stream": "di-invisible-env", "class": "cross-stream-chain", "environment": name, "codepoint": d,
               "text": [f"{c:04X}" for c in text], "direction": dr, "flags": fl, "level": lv, "font_hex": hx, "request": req,
               "reply": reply}
